@@ -88,6 +88,9 @@ var c03Rules = []c03Rule{
 	{"R14", "POST", "/c03/r14/{w_string}/{w_bytes}/{w_bool}", "*", []string{"w_string", "w_bytes", "w_bool"}},
 	{"R15", "POST", "/c03/r15", "*", nil},
 	{"R16", "POST", "/c03/r16", "sub", nil},
+	// variables below a message field that is itself a member of a oneof (a sibling set from elsewhere replaces the parent)
+	{"R17", "GET", "/c03/r17/{o_msg.name}", "", []string{"o_msg.name"}},
+	{"R18", "POST", "/c03/r18/{sub.c.tag}", "*", []string{"sub.c.tag"}},
 }
 
 type c03Env struct {
